@@ -44,6 +44,62 @@ pub struct IftCase {
     pub decoder: u8,
     pub fail_at: u8,
     pub rounds: u8,
+    /// when set, `IFT ` is a generated format-2 map whose entries form a deep child-index DAG
+    #[serde(default)]
+    pub dag: Option<DagSpec>,
+}
+
+/// entries 0 and 1 carry code points; entry k >= 2 has child indices {k-1-a, k-1-b} (a, b from `fan`, cycled) with a
+/// conjunctive or disjunctive match mode (from `conj`, cycled); some entries also carry their own code points
+#[derive(Clone, Debug, Serialize, Deserialize, PartialEq)]
+pub struct DagSpec {
+    pub n: u8,
+    pub conj: Vec<bool>,
+    pub fan: Vec<(u8, u8)>,
+    pub own_codepoints_every: u8,
+}
+
+pub fn dag_map(d: &DagSpec) -> Vec<u8> {
+    let n = (d.n as usize).clamp(2, 200);
+    let mut v = vec![2u8, 0, 0, 0, 0];
+    for c in [1u32, 2, 3, 4] {
+        v.extend_from_slice(&c.to_be_bytes());
+    }
+    v.push(3); // glyph keyed
+    v.extend_from_slice(&(n as u32).to_be_bytes()[1..]);
+    let off_pos = v.len();
+    v.extend_from_slice(&0u32.to_be_bytes());
+    v.extend_from_slice(&0u32.to_be_bytes());
+    let tmpl = b"foo/{id}";
+    v.extend_from_slice(&(tmpl.len() as u16).to_be_bytes());
+    v.extend_from_slice(tmpl);
+    let off = v.len() as u32;
+    v[off_pos..off_pos + 4].copy_from_slice(&off.to_be_bytes());
+    let cps = [0b00001101u8, 0b00000011, 0b00110001]; // sparse bit set covering bias..bias+17
+    for k in 0..n {
+        if k < 2 {
+            v.push(0b0010_0000); // CODEPOINT_BIT_2 (16-bit bias)
+            v.extend_from_slice(&((5 + 45 * k) as u16).to_be_bytes());
+            v.extend_from_slice(&cps);
+            continue;
+        }
+        let own = d.own_codepoints_every > 0 && k % d.own_codepoints_every as usize == 0;
+        v.push(0b0000_0010 | if own { 0b0010_0000 } else { 0 });
+        let (a, b) = if d.fan.is_empty() { (0, 1) } else { d.fan[k % d.fan.len()] };
+        let c1 = (k - 1).saturating_sub(a as usize % 3);
+        let c2 = (k - 1).saturating_sub(1 + b as usize % 3);
+        let conj = if d.conj.is_empty() { true } else { d.conj[k % d.conj.len()] };
+        let children: Vec<usize> = if c1 == c2 { vec![c1] } else { vec![c1, c2] };
+        v.push(children.len() as u8 | if conj { 0x80 } else { 0 });
+        for c in children {
+            v.extend_from_slice(&(c as u32).to_be_bytes()[1..]);
+        }
+        if own {
+            v.extend_from_slice(&5u16.to_be_bytes());
+            v.extend_from_slice(&cps);
+        }
+    }
+    v
 }
 
 pub const MAP_FIXTURES: usize = 13;
@@ -109,7 +165,13 @@ pub fn base_tables(base: u8) -> Vec<([u8; 4], Vec<u8>)> {
 pub fn build_font(ix: &CorpusIndex, c: &IftCase) -> Vec<u8> {
     let mut tables = base_tables(c.base);
     tables.retain(|t| &t.0 != b"IFT " && &t.0 != b"IFTX");
+    if let Some(d) = &c.dag {
+        tables.push((*b"IFT ", dag_map(d)));
+    }
     for (tag, spec) in [(*b"IFT ", &c.ift), (*b"IFTX", &c.iftx)] {
+        if c.dag.is_some() && &tag == b"IFT " {
+            continue;
+        }
         if let Some((fi, edits)) = spec {
             let mut d = map_fixture(*fi);
             ix.apply_edits(&mut d, edits);
